@@ -675,7 +675,36 @@ theorem s_router (st : St) (n i : Nat) (f : Frame) (hG : G c S st) (hF : FrameOk
               · exact ⟨hG2.bump n _, hF⟩
             · exact ⟨hG2, hF⟩
             · exact ⟨hG2, hF⟩
-        · exact ih.process _ _ _ _ hG1 hF hR
+        · split
+          · exact ih.process _ _ _ _ hG1 hF hR
+          · rename_i acl _
+            split
+            · -- `_process_dmz_outbound_frame`: two look-ups, then the second verdict
+              have h1 := ih.ifc _ n f.dstIp false false hG1
+              have hr2 : ∀ r2 : St × Option Nat, G c S r2.1 →
+                  G c S (match r2.2.bind dmzSecondList with
+                    | some l => if fwPermits acl l f.pl then routerProcess fuel r2.1 n i f else (r2.1, f)
+                    | none => (r2.1, f)).1 ∧
+                  FrameOk S (match r2.2.bind dmzSecondList with
+                    | some l => if fwPermits acl l f.pl then routerProcess fuel r2.1 n i f else (r2.1, f)
+                    | none => (r2.1, f)).2 := by
+                intro r2 hr
+                split
+                · split
+                  · exact ih.process _ _ _ _ hr hF hR
+                  · exact ⟨hr, hF⟩
+                · exact ⟨hr, hF⟩
+              apply hr2
+              split
+              · exact h1
+              · split
+                · exact h1.emit_raised _
+                · split
+                  · exact ih.ifc _ _ _ _ _ h1
+                  · exact h1
+            · split
+              · exact ih.process _ _ _ _ hG1 hF hR
+              · exact ⟨hG1, hF⟩
   · exact ⟨hG, hF⟩
 
 theorem s_process (st : St) (n i : Nat) (f : Frame) (hG : G c S st) (hF : FrameOk S f) (hR : IsRouter c n) :
